@@ -438,7 +438,7 @@ fn judge(ctx: &numbat::Context, units: &Units, out: &mut Out, stmts: &[String], 
         let what = if !o2.problems.is_empty() { o2.problems.join(" | ") } else { o2.error.clone() };
         let input = format!("prog {}", small.join(" ;; "));
         // (a failure of the model stream that was traced to a polymorphic zero meeting a NaN/infinity at run time)
-        let class = if tags.iter().any(|t| t == "zero-nonfinite") && o2.error.starts_with("runtime-incompatible") && classify(&small) == "c01:unsound" { "c01:zero-nonfinite" } else { classify(&small) };
+        let class = if tags.iter().any(|t| t == "zero-nonfinite") && (o2.error.starts_with("runtime-incompatible") || !o2.problems.is_empty()) && classify(&small) == "c01:unsound" { "c01:zero-nonfinite" } else { classify(&small) };
         out.oracle_fail(&format!("{}:{}", class, input), &input, &what);
     }
     // model stream: the base-unit representation (dimension vector in canonical form) of every raw unit, as
@@ -487,7 +487,8 @@ enum P {
 #[derive(Clone, Debug)]
 enum D {
     Let(String, P),
-    Fn(String, Vec<String>, P),
+    /// name, parameters, `where` clauses (name, right-hand side), body
+    Fn(String, Vec<String>, Vec<(String, P)>, P),
 }
 
 #[derive(Clone, Debug, PartialEq)]
@@ -755,6 +756,18 @@ fn parse_p(units: &Units, names: &[String], toks: &mut std::iter::Peekable<std::
     Some(e)
 }
 
+/// locals beyond the parameters are `where` variables
+fn rename_locs(e: &mut P, arity: usize) {
+    match e {
+        P::Loc(i, n) => *n = if *i < arity { format!("zp{}", i) } else { format!("zw{}", *i - arity) },
+        P::Neg(a) | P::Pow(a, _, _) | P::Not(a) => rename_locs(a, arity),
+        P::Bin(_, a, b) => { rename_locs(a, arity); rename_locs(b, arity); }
+        P::If(c, t, f) => { rename_locs(c, arity); rename_locs(t, arity); rename_locs(f, arity); }
+        P::Call(_, _, args) => { for a in args { rename_locs(a, arity); } }
+        _ => {}
+    }
+}
+
 /// `mprog (let E) (fn N E) …` back into a program (replay / corpus); globals are named g0, g1, …, functions zf0, …
 fn parse_mprog(units: &Units, line: &str) -> Option<Vec<D>> {
     let body = line.strip_prefix("mprog ")?;
@@ -776,8 +789,22 @@ fn parse_mprog(units: &Units, line: &str) -> Option<Vec<D>> {
             }
             "fn" => {
                 let k: usize = it.next()?.parse().ok()?;
-                let e = parse_p(units, &names, &mut it)?;
-                prog.push(D::Fn(format!("zf{}", nf), (0..k).map(|i| format!("zp{}", i)).collect(), e));
+                let mut wheres: Vec<(String, P)> = Vec::new();
+                // optional `(wheres E…)`
+                let mut look = it.clone();
+                if look.next().as_deref() == Some("(") && look.next().as_deref() == Some("wheres") {
+                    it.next();
+                    it.next();
+                    while it.peek().map(|t| t.as_str()) != Some(")") {
+                        let mut w = parse_p(units, &names, &mut it)?;
+                        rename_locs(&mut w, k);
+                        wheres.push((format!("zw{}", wheres.len()), w));
+                    }
+                    it.next();
+                }
+                let mut e = parse_p(units, &names, &mut it)?;
+                rename_locs(&mut e, k);
+                prog.push(D::Fn(format!("zf{}", nf), (0..k).map(|i| format!("zp{}", i)).collect(), wheres, e));
                 nf += 1;
             }
             _ => return None,
@@ -791,7 +818,7 @@ fn parse_mprog(units: &Units, line: &str) -> Option<Vec<D>> {
 /// infinity in some sub-expression?  Every sub-expression is given to the interpreter on its own; a
 /// conditional is followed into the branch taken, a call into the body with the arguments bound to fresh
 /// globals.  Used only to classify a run-time failure (known finding C01-zero-nonfinite).
-fn probe_nonfinite(c: &numbat::Context, e: &P, subst: &[String], fns: &[(Vec<String>, P)], budget: &mut usize) -> bool {
+fn probe_nonfinite(c: &numbat::Context, e: &P, subst: &[String], fns: &[(Vec<String>, Vec<P>, P)], budget: &mut usize) -> bool {
     if *budget == 0 { return false; }
     *budget -= 1;
     let eval_q = |c: &numbat::Context, src: &str| -> Option<f64> {
@@ -813,12 +840,20 @@ fn probe_nonfinite(c: &numbat::Context, e: &P, subst: &[String], fns: &[(Vec<Str
         if probe_nonfinite(c, ch, subst, fns, budget) { return true; }
     }
     if let P::Call(f, _, args) = e {
-        if let Some((_, body)) = fns.get(*f) {
+        if let Some((_, wheres, body)) = fns.get(*f) {
             let mut c2 = c.clone();
             let mut names = Vec::new();
             for (i, a) in args.iter().enumerate() {
                 let n = format!("zq_arg_{}_{}", *budget, i);
                 let r = catch(std::panic::AssertUnwindSafe(|| c2.interpret(&format!("let {} = {}", n, a.src_with(subst)), CodeSource::Internal).map(|_| ())));
+                if !matches!(r, Ok(Ok(()))) { return false; }
+                names.push(n);
+            }
+            // the `where` clauses become further locals, bound to fresh globals as well
+            for (i, w) in wheres.iter().enumerate() {
+                if probe_nonfinite(&c2, w, &names, fns, budget) { return true; }
+                let n = format!("zq_w_{}_{}", *budget, i);
+                let r = catch(std::panic::AssertUnwindSafe(|| c2.interpret(&format!("let {} = {}", n, w.src_with(&names)), CodeSource::Internal).map(|_| ())));
                 if !matches!(r, Ok(Ok(()))) { return false; }
                 names.push(n);
             }
@@ -832,7 +867,8 @@ fn probe_nonfinite(c: &numbat::Context, e: &P, subst: &[String], fns: &[(Vec<Str
 fn run_mprog(ctx: &numbat::Context, units: &Units, out: &mut Out, prog: &[D]) {
     let req = format!("mprog {}", prog.iter().map(|d| match d {
         D::Let(_, e) => format!("(let {})", e.sexpr(units)),
-        D::Fn(_, ps, e) => format!("(fn {} {})", ps.len(), e.sexpr(units)),
+        D::Fn(_, ps, ws, e) if ws.is_empty() => format!("(fn {} {})", ps.len(), e.sexpr(units)),
+        D::Fn(_, ps, ws, e) => format!("(fn {} (wheres {}) {})", ps.len(), ws.iter().map(|(_, w)| w.sexpr(units)).collect::<Vec<_>>().join(" "), e.sexpr(units)),
     }).collect::<Vec<_>>().join(" "));
     let mut c = ctx.clone();
     let mut answers: Vec<String> = Vec::new();
@@ -840,7 +876,8 @@ fn run_mprog(ctx: &numbat::Context, units: &Units, out: &mut Out, prog: &[D]) {
     for d in prog {
         let (name, code) = match d {
             D::Let(name, e) => (Some(name), format!("let {} = {}", name, e.src())),
-            D::Fn(name, ps, e) => (None, format!("fn {}({}) = {}", name, ps.join(", "), e.src())),
+            D::Fn(name, ps, ws, e) => (None, format!("fn {}({}) = {}{}", name, ps.join(", "), e.src(),
+                if ws.is_empty() { String::new() } else { format!(" where {}", ws.iter().map(|(n, w)| format!("{} = {}", n, w.src())).collect::<Vec<_>>().join(" and ")) })),
         };
         stmts.push(code.clone());
         let res = catch(std::panic::AssertUnwindSafe(|| c.interpret(&code, CodeSource::Internal).map(|_| ())));
@@ -877,11 +914,18 @@ fn run_mprog(ctx: &numbat::Context, units: &Units, out: &mut Out, prog: &[D]) {
     out.count("mprog_programs");
     let last = answers.last().cloned().unwrap_or_default();
     out.count(&format!("mprog_outcome:{}", if last.starts_with("err") || last.starts_with("panic") { last.split(' ').take(2).collect::<Vec<_>>().join("_") } else { "ok".to_string() }));
-    for d in prog { match d { D::Let(_, e) | D::Fn(_, _, e) => e.count_nodes(out) } }
+    for d in prog {
+        match d {
+            D::Let(_, e) => e.count_nodes(out),
+            D::Fn(_, _, ws, e) => { e.count_nodes(out); for (_, w) in ws { w.count_nodes(out); } out.count_n("mprog_where_clauses", ws.len() as u64); }
+        }
+    }
     out.count_n("mprog_functions", prog.iter().filter(|d| matches!(d, D::Fn(..))).count() as u64);
     let checked: Vec<String> = prog.iter().filter_map(|d| if let D::Let(n, _) = d { Some(n.clone()) } else { None }).collect();
     let mut tags = vec!["mprog".to_string()];
-    if last == "err incompatible" {
+    // a global whose raw value is a NaN or an infinity
+    let nonfinite_global = answers.iter().any(|a| a.strip_prefix("q ").and_then(|r| r.split(' ').next()).and_then(|h| u64::from_str_radix(h, 16).ok()).map(|b| !f64::from_bits(b).is_finite()).unwrap_or(false));
+    if last == "err incompatible" || nonfinite_global {
         // classification of the failure: does the program rely on a polymorphic zero (with every `0.0` replaced by
         // `1.0` the checker rejects it) that met a NaN/infinity at run time (some sub-expression of the failing
         // definition evaluates to a non-finite value)?
@@ -890,13 +934,18 @@ fn run_mprog(ctx: &numbat::Context, units: &Units, out: &mut Out, prog: &[D]) {
             let code = stmts.join("\n").replace("0.0", "1.0");
             matches!(catch(std::panic::AssertUnwindSafe(|| c2.interpret(&code, CodeSource::Internal).map(|_| ()))), Ok(Err(e)) if matches!(*e, NumbatError::TypeCheckError(_)))
         };
-        if relies_on_zero {
+        if relies_on_zero && nonfinite_global && last != "err incompatible" {
+            // the zero met the NaN/infinity inside a definition that did not fail: its value is non-finite
+            tags.push("zero-nonfinite".to_string());
+        } else if relies_on_zero {
             let k = answers.len() - 1;
             let mut c2 = ctx.clone();
-            let mut fns: Vec<(Vec<String>, P)> = Vec::new();
+            let mut fns: Vec<(Vec<String>, Vec<P>, P)> = Vec::new();
             for (d, code) in prog.iter().zip(stmts.iter()).take(k) {
                 let _ = catch(std::panic::AssertUnwindSafe(|| c2.interpret(code, CodeSource::Internal).map(|_| ())));
-                if let D::Fn(_, ps, b) = d { fns.push((ps.clone(), b.clone())); }
+                if let D::Fn(_, ps, ws, b) = d {
+                    fns.push((ps.clone(), ws.iter().map(|(_, w)| w.clone()).collect(), b.clone()));
+                }
             }
             if let Some(D::Let(_, e)) = prog.get(k) {
                 let mut budget = 400;
@@ -910,7 +959,7 @@ fn run_mprog(ctx: &numbat::Context, units: &Units, out: &mut Out, prog: &[D]) {
 fn main() {
     let args = Args::parse();
     let mut out = Out::new(&args);
-    out.rule = "stream `mprog`: programs of 2-8 let/fn definitions in the fragment of program_soundness (expressions over numbers, units in any spelling, earlier globals, parameters, + - * / neg, constant powers, conversions to unit expressions — one target in forty is the literal 0 —, comparisons, && || !, conditionals, calls of 1-3-parameter user functions, one function in three recursive over a small counter), run definition by definition, raw value of every new global compared bit for bit with the Lean model, and judged by the same oracle as: multi-statement programs (3-10 statements) generated type-directed over the prelude: let-bindings of expression trees (units in any alias/prefix spelling, + - * / neg, conversions, conditionals with comparisons incl. a polymorphic zero on either side, references to earlier globals, calls), powers with compile-time evaluated exponents (integer, fractional, composite arithmetic) followed by an addition at the statically computed exponent, inferred and annotated generic functions, where-clauses, generic structs with field access, lists with head/sum/maximum/mean/map/element_at, dimension and derived-unit definitions with annotated lets; plus the corpus (known-defect shapes). distinct = program text; non-trivial = at least two statements and accepted by the checker".into();
+    out.rule = "stream `mprog`: programs of 2-8 let/fn definitions in the fragment of program_soundness (expressions over numbers, units in any spelling, earlier globals, parameters, + - * / neg, constant powers, conversions to unit expressions — one target in forty is the literal 0 —, comparisons, && || !, conditionals, calls of 1-3-parameter user functions — one in three recursive over a small counter, half of the others with 1-2 `where` clauses), run definition by definition, raw value of every new global compared bit for bit with the Lean model, and judged by the same oracle as: multi-statement programs (3-10 statements) generated type-directed over the prelude: let-bindings of expression trees (units in any alias/prefix spelling, + - * / neg, conversions, conditionals with comparisons incl. a polymorphic zero on either side, references to earlier globals, calls), powers with compile-time evaluated exponents (integer, fractional, composite arithmetic) followed by an addition at the statically computed exponent, inferred and annotated generic functions, where-clauses, generic structs with field access, lists with head/sum/maximum/mean/map/element_at, dimension and derived-unit definitions with annotated lets; plus the corpus (known-defect shapes). distinct = program text; non-trivial = at least two statements and accepted by the checker".into();
     let ctx = prelude_ctx();
     let units = Units::load(&ctx);
     units.emit(&mut out);
@@ -994,6 +1043,17 @@ fn main() {
                 if recursive { ptys[0] = MTy::Scalar; }
                 let pnames: Vec<String> = (0..np).map(|i| format!("zp{}", i)).collect();
                 g.locals = pnames.iter().cloned().zip(ptys.iter().cloned()).collect();
+                // 0-2 `where` clauses over the parameters (and the earlier clauses); they are further locals of the body
+                let mut wheres: Vec<(String, P)> = Vec::new();
+                if !recursive && rng.chance(1, 2) {
+                    for wi in 0..(1 + rng.below(2)) {
+                        let wt = if rng.chance(1, 2) { ret.clone() } else { pick_ty(&g, &mut rng) };
+                        let we = g.of_ty(&mut rng, &wt, depth.min(2));
+                        let wn = format!("zw{}", wi);
+                        g.locals.push((wn.clone(), wt));
+                        wheres.push((wn, we));
+                    }
+                }
                 let body = if recursive {
                     // if zp0 <= 0 then <base> else zfK(zp0 - 1, <args>)
                     let base = g.of_ty(&mut rng, &ret, depth.min(2));
@@ -1011,7 +1071,7 @@ fn main() {
                 };
                 g.locals = vec![];
                 g.fns.push((name.clone(), ptys, ret));
-                prog.push(D::Fn(name, pnames, body));
+                prog.push(D::Fn(name, pnames, wheres, body));
                 if recursive {
                     // a recursive function is called with a small counter only (so that every run terminates)
                     let (_, ptys, ret) = g.fns[f].clone();
